@@ -31,9 +31,19 @@ LEVEL_NOTE = ("Trusted: the checker in vf/poolmon.py; the `queue` name of the po
               "CPython 3.12 sys.monitoring. Cannot prove absence: preemption-bound-1 stalls plus random yields.")
 
 
-MAXES = [-1, 0, 0.1, 0.9, 1, 1.9, 3, "2", "abc", None, [], True]
-MINS = [-5, 0, 1, 2, 5, "1", "x", None]
-QSIZES = [-1, 0, 1, 2, 0.1, "abc", None]
+INF = float("inf")
+MAXES = [-1, 0, 0.1, 0.9, 1, 1.9, 3, "2", "abc", None, [], True, INF, -INF, float("nan"), -1e308]
+MINS = [-5, 0, 1, 2, 5, "1", "x", None, INF, -INF, 1e308, -1e308]
+QSIZES = [-1, 0, 1, 2, 0.1, "abc", None, INF, float("nan")]
+
+
+def _int(x):
+    """int() of a number, saturating (the clamp of an infinite minimum is the maximum, of minus infinity zero)."""
+    if x != x:
+        raise ValueError("nan")
+    if x in (INF, -INF) or abs(x) > 1e18:
+        return 10 ** 18 if x > 0 else -10 ** 18
+    return int(x)
 
 
 def ctor_table(ctx):
@@ -69,8 +79,10 @@ def ctor_table(ctx):
                     must = "reject" if mx == "abc" else None   # numeric strings: unspecified
                 elif mx is True:
                     must = None
+                elif mx != mx:
+                    must = "reject"      # not a number
                 else:
-                    must = "reject" if int(mx) < 1 else "accept"
+                    must = "reject" if _int(mx) < 1 else ("accept" if mx != INF else None)
                 numeric_min = isinstance(mn, (int, float)) and not isinstance(mn, bool)
                 if must == "reject":
                     if out[0] == "ok":
@@ -90,7 +102,7 @@ def ctor_table(ctx):
                     continue
                 pool = out[1]
                 eff_max = int(mx)
-                eff_min = min(max(int(mn), 0), eff_max)
+                eff_min = min(max(_int(mn), 0), eff_max)
                 pool.start()
                 time.sleep(0.035)
                 # the pool's workers = threads that appeared since the pool was built (names are not API)
